@@ -183,3 +183,39 @@ def crc16_ccitt_false(data: bytes) -> int:
         for _ in range(8):
             c = ((c << 1) ^ 0x1021) & 0xFFFF if c & 0x8000 else (c << 1) & 0xFFFF
     return c
+
+
+def crafted_window(kind: str, data: bytes, off: int, target_diff: bytes) -> bytes | None:
+    """Four replacement bytes for data[off:off+4] such that checksum(kind, changed data) == checksum(kind, data) XOR target_diff
+    (CRCs are affine over GF(2): the 32 single-bit flips of the window give 32 difference vectors; Gaussian elimination picks the subset
+    whose sum is the wanted difference).  None if the window cannot produce it."""
+    assert 0 <= off and off + 4 <= len(data)
+    base = int.from_bytes(checksum(kind, data), "big")
+    vecs = []
+    for bit in range(32):
+        b = bytearray(data)
+        b[off + bit // 8] ^= 1 << (bit % 8)
+        vecs.append(int.from_bytes(checksum(kind, bytes(b)), "big") ^ base)
+    # solve sum x_i vecs[i] == target
+    target = int.from_bytes(target_diff, "big")
+    rows = [(v, 1 << i) for i, v in enumerate(vecs)]
+    pivots = []
+    for col in reversed(range(32)):
+        idx = next((j for j, (v, _) in enumerate(rows) if (v >> col) & 1), None)
+        if idx is None:
+            continue
+        pv, pc = rows.pop(idx)
+        rows = [((v ^ pv, c ^ pc) if (v >> col) & 1 else (v, c)) for v, c in rows]
+        pivots.append((col, pv, pc))
+    combo, t = 0, target
+    for col, pv, pc in pivots:
+        if (t >> col) & 1:
+            t ^= pv
+            combo ^= pc
+    if t != 0:
+        return None
+    b = bytearray(data[off : off + 4])
+    for bit in range(32):
+        if (combo >> bit) & 1:
+            b[bit // 8] ^= 1 << (bit % 8)
+    return bytes(b)
